@@ -340,10 +340,11 @@ func (w *Writer) Close() error {
 		return err
 	}
 	if *w.EnableAutoCommit && w.AutoIndexPersistInterval > 0 {
+		// Hold the lock across the persist: a snapshot written after the lock is
+		// released can overwrite the newer one of a commit that ran in between.
 		w.idx.mu.RLock()
-		persistPointers := w.idx.indexPersist.prepare(w.idx.persistHead)
-		w.idx.mu.RUnlock()
-		return persistPointers()
+		defer w.idx.mu.RUnlock()
+		return w.idx.indexPersist.prepare(w.idx.persistHead)()
 	}
 	return nil
 }
